@@ -47,10 +47,14 @@ func c11Programs(thorough bool) []c11Program {
 	u := "a,c\n1,p\n3,q\n"
 	tu := map[string]string{"t.csv": t, "u.csv": u}
 	src := "UPDATE t SET b = 'z' WHERE a = 1;\nSELECT * FROM u;\n"
+	// a table larger than the writer's buffer: the commit flushes (a point) in the middle of encoding it, so a signal
+	// delivered there is first seen by the encoder at a record boundary inside the table
+	bigT := "a,b\n" + strings.Repeat("1,"+strings.Repeat("x", 90)+"\n2,"+strings.Repeat("y", 90)+"\n", 40)
 	ps := []c11Program{
 		{Name: "select", Files: tu, Args: []string{"SELECT * FROM t"}, ReadOnly: true},
 		{Name: "select-join", Files: tu, Args: []string{"SELECT * FROM t JOIN u ON t.a = u.a WHERE t.a IN (SELECT a FROM u)"}, ReadOnly: true},
 		{Name: "update", Files: tu, Args: []string{"UPDATE t SET b = 'z' WHERE a = 1"}},
+		{Name: "update-big", Files: map[string]string{"t.csv": bigT, "u.csv": u}, Args: []string{"UPDATE t SET b = 'z' WHERE a = 1"}},
 		{Name: "update-2-tables", Files: tu, Args: []string{"UPDATE t SET b = 'z'; UPDATE u SET c = 'r';"}},
 		{Name: "create-insert", Files: tu, Args: []string{"CREATE TABLE `n.csv` (c1, c2); INSERT INTO n VALUES (1, 2);"}, Created: []string{"n.csv"}},
 		{Name: "update-create", Files: tu, Args: []string{"UPDATE t SET b = 'z'; CREATE TABLE `n.csv` (c1); INSERT INTO n VALUES (1);"}, Created: []string{"n.csv"}},
@@ -106,6 +110,7 @@ func c11Exec(dir string, p c11Program, env []string) procx.Outcome {
 	if !strings.HasPrefix(strings.Join(env, " "), "VERIF_MAPORDER=") {
 		env = append([]string{"VERIF_MAPORDER=" + p.MapOrder}, env...)
 	}
+	env = append(env, "VERIF_POLL_POINTS=1") // a signal can also arrive right before any look at the cancellation
 	out := procx.Exec(procx.Run{Dir: dir, Args: p.Args, Env: env, Timeout: 40 * time.Second})
 	if held != nil {
 		syscall.Flock(int(held.Fd()), syscall.LOCK_UN)
@@ -317,7 +322,7 @@ func c11Run(c *core.Ctx) {
 			for _, s := range sigsList {
 				injs = append(injs, c11Injection{"signal", s})
 			}
-			if tp.Name != "stmt" && tp.Name != "wait" && tp.Name != "glob" {
+			if tp.Name != "stmt" && tp.Name != "wait" && tp.Name != "glob" && tp.Name != "poll" {
 				for _, e := range errnos {
 					injs = append(injs, c11Injection{"fail", e})
 				}
